@@ -26,6 +26,10 @@ def gen_cfg(rng, profile="faithful"):
                 nd["form"] = "value"
         if k in ("fn", "fnerr") and rng.chance(0.3):
             nd["name_style"] = rng.choice(["Provide", "Make"])      # harmless for plain providers
+        if k in ("fn", "fnerr", "bind") and rng.chance(0.15):
+            nd["selfarg"] = True               # the constructor of *T<i> also takes a T<i> by value, which is an injector argument
+        if k == "arg" and rng.chance(0.3):
+            nd["form"] = "value"               # the injector takes T<i> by value (its term stays empty: unexported field)
         if k == "struct" and nd.get("form", "ptr") == "ptr" and rng.chance(0.35):
             nd["helper"] = True                # a provider next to the Struct that takes the struct by value and is not needed by the injector
         if k == "bind" and rng.chance(0.35):
@@ -88,6 +92,8 @@ def ctype(nd):
         return "T%d" % i
     if k == "struct":
         return ("*T%d" if nd.get("form", "ptr") == "ptr" else "T%d") % i
+    if k == "arg" and nd.get("form") == "value":
+        return "T%d" % i
     return "*T%d" % i
 
 def term_expr(nd, var):
@@ -133,7 +139,7 @@ def render(cfg, pkgname):
     for nd in N:
         i = nd["id"]
         if nd["kind"] in ("fn", "fnerr", "bind"):
-            params = ", ".join(["a%d %s" % (d, ctype(N[d])) for d in nd["deps"]] + ["j%d J%d" % (d, d) for d in nd["deps"] if N[d].get("second_iface")])
+            params = ", ".join((["s%d T%d" % (i, i)] if nd.get("selfarg") else []) + ["a%d %s" % (d, ctype(N[d])) for d in nd["deps"]] + ["j%d J%d" % (d, d) for d in nd["deps"] if N[d].get("second_iface")])
             args = ' + "," + '.join("a%d.Term()" % d for d in nd["deps"]) or '""'
             ret = "(*T%d, error)" % i if nd["err"] else "*T%d" % i
             body = 'rt.Enter("%s"); ' % fname(nd)
@@ -193,7 +199,10 @@ def render(cfg, pkgname):
     inj_err = any(nd["err"] for nd in N)
     root_ret = "(*T0, error)" if inj_err else "*T0"
     root_zero = "nil, nil" if inj_err else "nil"
-    params = ", ".join("a%d *T%d" % (nd["id"], nd["id"]) for nd in args)
+    def plist(nodes_):
+        return ", ".join(("a%d %s" % (nd["id"], ctype(nd))) if nd["kind"] == "arg" else ("s%d T%d" % (nd["id"], nd["id"])) for nd in nodes_)
+    args = [nd for nd in N if nd["kind"] == "arg" or nd.get("selfarg")]
+    params = plist(args)
     layout = cfg["set_layout"]
     wire_files = {}
     hdr = "//go:build wireinject\n\npackage %s\n\nimport \"github.com/google/wire\"\n\n" % pkgname
@@ -244,11 +253,11 @@ def render(cfg, pkgname):
             if i == r and N[i]["kind"] == "bind":
                 it = it[:1]                      # requested as *T directly: the binding would be unused
             its2.extend(it)
-        args2 = [N[i] for i in sub if N[i]["kind"] == "arg"]
+        args2 = [N[i] for i in sub if N[i]["kind"] == "arg" or N[i].get("selfarg")]
         err2 = any(N[i]["err"] for i in sub)
         ret2 = "(*T%d, error)" % r if err2 else "*T%d" % r
         body2 = "func Init2(%s) %s {\n\twire.Build(%s)\n\treturn %s\n}\n" % (
-            ", ".join("a%d *T%d" % (nd["id"], nd["id"]) for nd in args2), ret2, ", ".join(its2), "nil, nil" if err2 else "nil")
+            plist(args2), ret2, ", ".join(its2), "nil, nil" if err2 else "nil")
         w = wire_files["wire.go"]
         if cfg.get("second_first"):
             k = w.index("func Init(")
@@ -273,7 +282,7 @@ def expected_term(cfg, root=0):
         if k == "struct":
             return "S%d{%s}" % (i, ",".join(term(d) for d in nd["deps"]))
         if k == "arg":
-            return "A%d" % i
+            return "A%d" % i if nd.get("form") != "value" else ""
         if k == "fieldsof":
             return "C%d.F%d" % (nd["cfg"], i)
     return term(root)
@@ -281,7 +290,7 @@ def expected_term(cfg, root=0):
 def describe(cfg):
     N = cfg["nodes"]
     return " ".join("%d:%s%s%s(%s)" % (nd["id"], nd["kind"], "" if nd["name_style"] == "New" else "/" + nd["name_style"],
-                                        ("/value" if nd.get("form") == "value" else "") + ("/apart" if nd.get("apart") else "") + ("/2ifaces" if nd.get("second_iface") else "") + ("/helper" if nd.get("helper") else ""), ",".join(map(str, nd["deps"]))) for nd in N) + \
+                                        ("/value" if nd.get("form") == "value" else "") + ("/apart" if nd.get("apart") else "") + ("/2ifaces" if nd.get("second_iface") else "") + ("/selfarg" if nd.get("selfarg") else "") + ("/helper" if nd.get("helper") else ""), ",".join(map(str, nd["deps"]))) for nd in N) + \
         " layout=%d files=%d" % (cfg["set_layout"], cfg["nfiles"]) + \
         ("" if cfg.get("second") is None else " second=%d%s" % (cfg["second"], "(first)" if cfg.get("second_first") else ""))
 
@@ -310,13 +319,15 @@ def encode(cfg, root=0):
         if keep is not None and i not in keep:
             if k in ("fn", "fnerr", "bind"):
                 name = (1000 + i) if nd["name_style"] == "New" else (5000 + i)
-                pkg.append("%d p%d : %s" % (name, i, " ".join(ty(N[d]) for d in nd["deps"])))
+                pkg.append("%d p%d : %s" % (name, i, " ".join((["v%d" % i] if nd.get("selfarg") else []) + [ty(N[d]) for d in nd["deps"]])))
                 if nd.get("decoy"):
                     pkg.append("%d p%d : b0 b1" % (1000 + i, i))
             continue
         if k in ("fn", "fnerr", "bind"):
             name = (1000 + i) if nd["name_style"] == "New" else (5000 + i)
-            f = "%d p%d : %s" % (name, i, " ".join([ty(N[d]) for d in nd["deps"]] + ["i%d" % (500 + d) for d in nd["deps"] if N[d].get("second_iface")]))
+            f = "%d p%d : %s" % (name, i, " ".join((["v%d" % i] if nd.get("selfarg") else []) + [ty(N[d]) for d in nd["deps"]] + ["i%d" % (500 + d) for d in nd["deps"] if N[d].get("second_iface")]))
+            if nd.get("selfarg"):
+                args.append("v%d" % i)
             apart = k == "bind" and nd.get("apart") and cfg.get("set_layout", 0) != 0
             items.append("f " + f); pkg.append(f); parts.append(part(("f", i) if apart else i))
             if k == "bind" and not (root and i == root):
@@ -335,7 +346,7 @@ def encode(cfg, root=0):
                 f = "%d p%d : v%d" % (9000 + i, 900 + i, i)
                 items.append("f " + f); pkg.append(f); parts.append(part(i))
         elif k == "arg":
-            args.append("p%d" % i)
+            args.append(("v%d" if nd.get("form") == "value" else "p%d") % i)
     for c in cfg["cfgs"]:
         if keep is not None:
             continue
